@@ -21,7 +21,11 @@
 (*   Remove(h)          on_remove (on_remove 2082)                           *)
 (*   Relocate(h, d)     ControlConnection._update_location_info 4001-4011:   *)
 (*                      on_down(h) with the old location, set_location_info, *)
-(*                      on_up(h) - whatever the host's up/down state is      *)
+(*                      on_up(h) - whatever the host's up/down state is;     *)
+(*                      the replay calls that very function (and, for whole- *)
+(*                      cluster histories, _refresh_node_list_and_token_map  *)
+(*                      with changed system.peers rows), so the delivery     *)
+(*                      order is the code's own                              *)
 (*                                                                           *)
 (* Policy configurations (records of the constant set Policies):             *)
 (*   RR          RoundRobinPolicy                              153-198       *)
